@@ -22,7 +22,8 @@ EXPLANATION = (
     "incremental add (whose (x, y, sd) arguments stem from one logger call), self-filtering and the tabled non-finite patch. R3 "
     "the neighbour selector indexes U, Y, S with one selector order[0:n], order = ascending argsort of the length-scaled distance "
     "to the reference point, n clamped by n_train_max, n_train_min and finally by the number of logged rows. R4 LCB: z = mean - "
-    "sqrt_beta*sqrt(var), default sqrt_beta^2 = 2*nu*log(D t^2 pi^2/(6 delta)), t = count+1 (sympy identity). Decides structure "
+    "sqrt_beta*sqrt(var), default sqrt_beta^2 = 2*nu*log(D t^2 pi^2/(6 delta)), t = count+1 (sympy identity). R5 a fit on thinned data works on a deep copy. R6 the high-water mark that bounds the selector's slices of the log starts at a constant, advances by one per recorded row in the record routine and is clamped only by the live capacity array.shape[0]. R7 must-dataflow with 'moved implies flag' facts: every incumbent move leaves the re-centring request set at return, or hands back (through a return slot every caller rebinds) a surrogate fitted around the moved point. Decides structure "
+    "and unitsDecides structure "
     "and units, not the numerical adequacy of the metric."
 )
 
